@@ -45,7 +45,7 @@ def snapshot(pl):
 
 
 def gen(ctx):
-    pl = G.random_pipeline(ctx.rng, entrance_zero=True)
+    pl = G.random_pipeline(ctx.rng, entrance_zero=True, vary_speed=True)
     from DHLLDV.PipeObj import Pipe
     # pump state changed after construction; repeated identical sections
     for s in pl.pipesections:
@@ -139,6 +139,28 @@ def monitor(ctx, extended=False):
         try:
             for Q in G.flows_for(ctx.rng, pl, 2):
                 check_line(ctx, pl, Q, Q, desc)
+                k += 1
+            if ctx.rng.random() < 0.6:
+                # history: the pipeline is edited directly (as the project's own tests do) and the grade line asked again at the SAME flow
+                pipes = [x for x in pl.pipesections if isinstance(x, Pipe) and x.length > 0]
+                pumps = [x for x in pl.pipesections if not isinstance(x, Pipe)]
+                kind = ctx.rng.choice(['length', 'elev', 'K', 'speed', 'append', 'drop'])
+                if kind == 'length' and pipes:
+                    ctx.rng.choice(pipes).length *= ctx.rng.choice([0.5, 1.5, 2.0])
+                elif kind == 'elev' and pipes:
+                    ctx.rng.choice(pipes).elev_change += ctx.rng.choice([-2.0, 1.5, 3.0])
+                elif kind == 'K' and pipes:
+                    ctx.rng.choice(pipes).total_K += 0.5
+                elif kind == 'speed' and pumps:
+                    q = ctx.rng.choice(pumps)
+                    q.current_speed = q.current_speed * 0.9
+                elif kind == 'append':
+                    last = pl.pipesections[-1]
+                    pl.pipesections.append(Pipe('appended', last.diameter, ctx.rng.uniform(10.0, 200.0), 0.1, ctx.rng.uniform(-2.0, 3.0)))
+                elif kind == 'drop' and len(pl.pipesections) > 3 and isinstance(pl.pipesections[-2], Pipe):
+                    del pl.pipesections[-2]
+                desc2 = dict(G.describe(pl), history=f'grade line at Q, then direct edit ({kind}), then grade line at the same Q')
+                check_line(ctx, pl, Q, Q, desc2)
                 k += 1
             if ctx.rng.random() < 0.35:
                 flow_list = [Pipe(diameter=pl.slurry.Dp).flow(v) for v in pl.slurry.vls_list]
